@@ -132,7 +132,7 @@ class Euler:
     """One explicit Euler step per requested interval; row layout of the shipped Scipy integrator
     (`integrate(t_end, steps)` -> `steps + 1` points; `integrate_time_course` prepends t0)."""
 
-    def __init__(self, rhs, y0, jacobian=None, *, nss=4, h=0.25, fail=(), tol=None, raises=()):
+    def __init__(self, rhs, y0, jacobian=None, *, nss=4, h=0.25, fail=(), tol=None, raises=(), zerodiv=()):
         from mxlpy.types import IntegrationFailure, NoSteadyState, Result  # noqa: F401
 
         self.rhs = rhs
@@ -146,6 +146,10 @@ class Euler:
         key = float(sum(self.y0) + 3.0 * sum(float(v) for v in d0))
         self.fail = key in fail
         self.raises = key in raises  # integrate_to_steady_state raises (an exception escaping the integrator)
+        if key in zerodiv:
+            # stands for a rate law that divides by zero while the simulator is being built
+            msg = "toy integrator: division by zero"
+            raise ZeroDivisionError(msg)
 
     def reset(self):
         self.t0 = 0.0
@@ -200,7 +204,8 @@ def make_integ(cfg):
         return None
     return partial(Euler, nss=int(cfg["nss"]), h=fl(cfg["h"]), fail=tuple(fl(k) for k in cfg["fail"]),
                    tol=None if cfg.get("tol") is None else fl(cfg["tol"]),
-                   raises=tuple(fl(k) for k in cfg.get("raise", [])))
+                   raises=tuple(fl(k) for k in cfg.get("raise", [])),
+                   zerodiv=tuple(fl(k) for k in cfg.get("zerodiv", [])))
 
 
 # --------------------------------------------------------------------------- tolerant comparison
